@@ -173,9 +173,11 @@ pub fn dec_plan(prop: &str, tier: Tier) -> Vec<DecPlanItem> {
                     }
                 }
                 // thorough-B: full byte alphabet on the resumed paths
-                for e in ["Big5", "EUC-KR", "Shift_JIS", "EUC-JP", "ISO-2022-JP", "windows-1252", "windows-874", "x-user-defined", "UTF-16LE"] {
-                    v.push(full_item(e, Sink::Utf8, false, 2));
-                    v.push(full_item(e, Sink::Utf16, true, 2));
+                // (one byte per buffer: every pair / triple / quadruple of byte values meets every
+                // buffer boundary; whole pairs inside one buffer are the C01 sweep's)
+                for e in ["Big5", "EUC-KR", "Shift_JIS", "EUC-JP", "ISO-2022-JP", "windows-1252", "windows-874", "x-user-defined", "UTF-16LE", "UTF-16BE", "replacement"] {
+                    v.push(full_item(e, Sink::Utf8, false, 1));
+                    v.push(full_item(e, Sink::Utf16, true, 1));
                 }
                 for e in ["gb18030", "UTF-8"] {
                     v.push(full_item(e, Sink::Utf8, false, 1));
